@@ -377,6 +377,12 @@ def load_table(
             if delimiter not in valid_delimiters:
                 raise ValueError(f"Cannot find the separator. {delimiter=!r}")
 
+        # Read the floating point values exactly (not available with the 'python' engine
+        # used when the delimiter is not known)
+        extra_parameters: dict = (
+            {} if delimiter is None else {"float_precision": "round_trip"}
+        )
+
         with StringIO(data) as file_handler:
             try:
                 if suffix.startswith(".csv"):
@@ -385,6 +391,7 @@ def load_table(
                         delimiter=delimiter,
                         header=0 if header else None,
                         dtype=dtype,
+                        **extra_parameters,
                     )
                 else:
                     table = pd.read_table(
@@ -392,6 +399,7 @@ def load_table(
                         delimiter=delimiter,
                         header=0 if header else None,
                         dtype=dtype,
+                        **extra_parameters,
                     )
             except ValueError as exc:
                 if delimiter is None:
